@@ -716,7 +716,15 @@ mod os {
 
     impl super::PopenOs for Popen {
         fn os_start(&mut self, argv: Vec<OsString>, config: PopenConfig) -> Result<()> {
-            let mut exec_fail_pipe = posix::pipe()?;
+            let exec_fail_pipe = posix::pipe()?;
+            // The child installs its streams on the descriptors 0..=2.  If
+            // the parent has closed some of them, the pipe just created can
+            // have got those numbers, and the child would overwrite the end
+            // it reports through.
+            let mut exec_fail_pipe = (
+                posix::above_std(exec_fail_pipe.0)?,
+                posix::above_std(exec_fail_pipe.1)?,
+            );
             set_inheritable(&exec_fail_pipe.0, false)?;
             set_inheritable(&exec_fail_pipe.1, false)?;
             {
